@@ -19,7 +19,7 @@ out = {"repo_head": subprocess.run(["git", "-C", "/repo", "rev-parse", "--short"
 try:
     # place demo files: into the package directory the demo command tests
     def clean(c):
-        c = re.split(r"\s{2,}\(", c)[0]
+        c = re.split(r"\s{2,}[(#]", c)[0]
         c = re.sub(r"cd /tmp/seed_\w+\s*&&\s*", "", c)
         c = re.sub(r"cp SEED/\S+ \S+\s*&&\s*", "", c)
         return c.strip()
